@@ -177,8 +177,8 @@ func locate(msgType string, data []byte, path []string) (start, afterTag, afterL
 		if i == len(path)-1 {
 			return base + nd.start, base + nd.afterTag, base + nd.afterLen, base + nd.end, true
 		}
-		if nd.typ != protowire.BytesType {
-			return
+		if nd.typ != protowire.BytesType || isCipherKind(f.Kind) {
+			return // (a stream cut inside a ciphertext is a cut of the ciphertext field itself)
 		}
 		base += nd.afterLen
 		data = nd.val
@@ -227,18 +227,30 @@ func mutate(msgType string, data []byte, path []string, c caseSpec, env *renderE
 		if idx < 0 || nodes[idx].typ != protowire.BytesType {
 			return nil, errNA
 		}
-		child, err := mutate(f.Type, nodes[idx].val, path[1:], c, env)
+		inner, seal := nodes[idx].val, func(b []byte) []byte { return b }
+		if isCipherKind(f.Kind) {
+			// the field is a ciphertext whose plaintext is a message: open it with the key it was
+			// sealed for, mutate the plaintext, seal it again for the same recipient
+			pt, sl, ok := openField(f.Kind, inner)
+			if !ok {
+				return nil, errNA
+			}
+			inner, seal = pt, sl
+		}
+		child, err := mutate(f.Type, inner, path[1:], c, env)
 		if err != nil {
 			return nil, err
 		}
 		nodes = append([]wnode{}, nodes...)
-		nodes[idx].val = child
+		nodes[idx].val = seal(child)
 	}
 	if c.Reseal && env.fix != nil {
 		nodes = env.fix(msgType, path[0], nodes)
 	}
 	return encodeMsg(nodes), nil
 }
+
+func isCipherKind(k string) bool { return k == "ct_x25519" || k == "ct_aes" }
 
 func wireTypeOf(f *fieldInfo) protowire.Type {
 	switch f.Kind {
@@ -370,6 +382,84 @@ func applyOp(nodes []wnode, idx int, f *fieldInfo, c caseSpec, env *renderEnv) (
 		}
 		out[idx].lenOverride = &l
 		return out, nil
+	// ---- reordering of a repeated field (batch permutations)
+	case "rep-reverse", "rep-rotate":
+		var pos []int
+		for i, nd := range out {
+			if nd.num == num {
+				pos = append(pos, i)
+			}
+		}
+		if len(pos) < 2 {
+			return nil, errNA
+		}
+		els := make([]wnode, len(pos))
+		for k, i := range pos {
+			els[k] = out[i]
+		}
+		for k, i := range pos {
+			if c.Op == "rep-reverse" {
+				out[i] = els[len(els)-1-k]
+			} else {
+				out[i] = els[(k+1)%len(els)]
+			}
+		}
+		return out, nil
+	// ---- a reference to an element of the same message that can itself never be attached
+	case "ref-inbatch-orphan":
+		if env.id("inbatch-orphan") == "" {
+			return nil, errNA
+		}
+		if f.Repeated {
+			out = removeAll(out, num)
+			return append(out, bytesNode(num, []byte(env.id("inbatch-orphan")))), nil
+		}
+		return setVal([]byte(env.id("inbatch-orphan")))
+	// ---- the plaintext of an encrypted field, sealed again for the same recipient
+	case "pt-empty", "pt-one-byte", "pt-grow-64k", "pt-garbage":
+		if err := needPresent(); err != nil {
+			return nil, err
+		}
+		pt, seal, ok := openField(f.Kind, cur())
+		if !ok {
+			return nil, errNA
+		}
+		var np []byte
+		switch c.Op {
+		case "pt-empty":
+			np = []byte{}
+		case "pt-one-byte":
+			np = []byte{0x0a}
+		case "pt-grow-64k":
+			np = append(append([]byte{}, pt...), make([]byte, 64*1024)...)
+		case "pt-garbage":
+			np = make([]byte, len(pt))
+			env.rnd.Read(np)
+		}
+		return setVal(seal(np))
+	// ---- key material inside a key blob
+	case "keydata-len-0", "keydata-len-1", "keydata-len-15", "keydata-len-16", "keydata-len-24", "keydata-len-31",
+		"keydata-len-33", "keydata-len-64":
+		n := map[string]int{"keydata-len-0": 0, "keydata-len-1": 1, "keydata-len-15": 15, "keydata-len-16": 16,
+			"keydata-len-24": 24, "keydata-len-31": 31, "keydata-len-33": 33, "keydata-len-64": 64}[c.Op]
+		b := make([]byte, n)
+		env.rnd.Read(b)
+		copy(b, cur())
+		return setVal(b)
+	case "keytype-ed25519-public", "keytype-ed25519-private", "keytype-aes":
+		u := map[string]uint64{"keytype-ed25519-public": 0, "keytype-ed25519-private": 1, "keytype-aes": 2}[c.Op]
+		if present && nodes[idx].u == u {
+			return nil, errNA
+		}
+		if u == 0 {
+			// proto3 zero value: the field is absent
+			return removeAll(out, num), nil
+		}
+		if present {
+			out[idx].u = u
+			return out, nil
+		}
+		return append([]wnode{varintNode(num, u)}, out...), nil
 	// ---- plain bytes / strings
 	case "one-byte":
 		return setVal([]byte{0x7f})
